@@ -60,8 +60,9 @@ def spaces():
 
         def ddenote(action, clist=clist, allocs=allocs):
             return {c.symbol: float(v) for c, v in zip(clist, allocs[int(action)]) if not isinstance(c, Cash) and v != 0}
-        out["disc-%s" % cname] = (lambda clist=clist, allocs=allocs: DiscretePortfolio(clist, allocs), [1, 2, 3, 0, np.int64(2)],
-                                  [-1, 4, 1.5, 10 ** 9, None, "a", np.array([0, 1]), np.nan, 2.0], ddenote, "weight", True)
+        out["disc-%s" % cname] = (lambda clist=clist, allocs=allocs: DiscretePortfolio(clist, allocs), [1, 2, 3, 0, np.int64(2), np.array(3)],
+                                  [-1, 4, 1.5, 10 ** 9, None, "a", np.array([0, 1]), np.nan, np.array([1.7]), np.array(1.5), np.array([-0.5]),
+                                   np.float64(2.5), np.array([[0.25]]), np.array([np.nan])], ddenote, "weight", True)
     return out
 
 
